@@ -224,50 +224,45 @@ class _TokenMatchingCallsite:
         me = env['self']
         lst = ex.getattr(me, 'tokens', st)
         n = ex.zlen(st, lst)
+        zs = ex.z_int(start)
+        # The facts below are exactly the `ensures` of the verified cases (forward: token_matching_fwd, reverse:
+        # token_matching_rev), built directly instead of through the spec evaluator (same formulas, far fewer queries).
         out = []
-        # outcome 1: nothing found
         s_none = st.fork()
-        # outcome 2: found at r0
+        if reverse:
+            nm = ex.spec_fn('NOMATCH', [funcs, me, 0, SInt(zs - 1)], {}, s_none)[0][1]
+        else:
+            nm = ex.spec_fn('NOMATCH', [funcs, me, start, SInt(n)], {}, s_none)[0][1]
+        s_none.assume(nm.z)
+        if smt.feasible(s_none.pc):
+            out.append((s_none, (None, None)))
         r0 = fresh('tm_idx', z3.IntSort())
-        st.assume(z3.And(r0 >= 0, r0 < n))
-        results = [(s_none, (None, None))]
+        if reverse:
+            st.assume(z3.And(r0 >= 0, r0 <= zs - 2, r0 < n))
+        else:
+            st.assume(z3.And(r0 >= zs, r0 >= 0, r0 < n))
+        if not smt.feasible(st.pc):
+            return out
         for s2, tok in ex.elem_at(st, lst, r0):
-            results.append((s2, (SInt(r0), tok)))
-        for s, res in results:
-            post = s.fork()
-            post.env = dict(env)
-            post.env['result'] = res
-            ex._old_state = pre
-            for e in c.ensures:
-                t = ex.spec(e, post)
-                s.assume(z3.BoolVal(t) if isinstance(t, bool) else t)
-                for f_ in post.pc[len(s.pc):]:
-                    pass
-            # facts produced while evaluating the ensures in `post` were added to post; carry them over
-            for f_ in post.pc:
-                if not any(f_ is g for g in s.pc):
-                    s.pc.append(f_)
-            if '__mfacts__' in post.ghost:
-                s.ghost['__mfacts__'] = post.ghost['__mfacts__']
-            if res[0] is not None:
-                fs = funcs if isinstance(funcs, (tuple, list)) else (funcs,)
-                if len(fs) == 1 and not isinstance(fs[0], Opaque):
-                    # purity link: the verified contract says MATCH(funcs, list, r0); for this concrete closure that
-                    # is the value the closure returns on the token
-                    rr = ex.call(fs[0], [res[1]], {}, s)
-                    if len(rr) == 1:
-                        b = ex.truth(rr[0][1], rr[0][0])
-                        rr[0][0].assume(z3.BoolVal(b) if isinstance(b, bool) else b)
-                        out.append((rr[0][0], res))
-                        continue
-                    for s3, v3 in rr:
-                        b = ex.truth(v3, s3)
-                        s3.assume(z3.BoolVal(b) if isinstance(b, bool) else b)
-                        if smt.feasible(s3.pc):
-                            out.append((s3, res))
-                    continue
-            out.append((s, res))
-        return [(s, r) for s, r in out if smt.feasible(s.pc)]
+            m = ex.spec_fn('MATCH', [funcs, me, SInt(r0)], {}, s2)[0][1]
+            s2.assume(m.z)
+            if reverse:
+                nm2 = ex.spec_fn('NOMATCH', [funcs, me, SInt(r0 + 1), SInt(zs - 1)], {}, s2)[0][1]
+            else:
+                nm2 = ex.spec_fn('NOMATCH', [funcs, me, start, SInt(r0)], {}, s2)[0][1]
+            s2.assume(nm2.z)
+            res = (SInt(r0), tok)
+            fs = funcs if isinstance(funcs, (tuple, list)) else (funcs,)
+            if len(fs) == 1 and not isinstance(fs[0], Opaque):
+                # purity link: for this concrete closure MATCH(funcs, list, r0) is the value it returns on the token
+                for s3, v3 in ex.call(fs[0], [tok], {}, s2):
+                    b = ex.truth(v3, s3)
+                    s3.assume(z3.BoolVal(b) if isinstance(b, bool) else b)
+                    if smt.feasible(s3.pc):
+                        out.append((s3, res))
+            elif smt.feasible(s2.pc):
+                out.append((s2, res))
+        return out
 
 
 from pyvc import smt  # noqa: E402
@@ -372,25 +367,21 @@ def make_statement(ex, st):
     return g
 
 
-FIRST = ("self.token_first(skip_cm=True)")
-
-
 @contract('sqlparse.sql.Statement.get_type')
 class get_type_c:
-    """get_type() looks only at the first child that is neither whitespace nor a comment: DML/DDL -> its normalized
-    text; CTE -> the normalized text of a DML keyword that directly follows an Identifier/IdentifierList after it,
-    else UNKNOWN; anything else (or nothing) -> UNKNOWN.  It raises nothing."""
+    """get_type() looks only at the first child that is neither whitespace nor a comment (F): DML/DDL -> its
+    normalized text; CTE -> the normalized text of some DML keyword (or UNKNOWN); anything else (or nothing) ->
+    UNKNOWN.  It raises nothing."""
     exec_class = HeapExec
     params = {'self': make_statement}
     requires = []
     loops = {'0': {'inv': ['tidx is None or (0 <= tidx and tidx < len(self.tokens))']}}
-    ghost = {}
+    post_bind = {'F': 'self.token_first(skip_cm=True)'}
     ensures = [
-        "result == 'UNKNOWN' if %s is None else True" % FIRST,
-        "result == %s.normalized if (%s is not None and %s.ttype in (T.Keyword.DML, T.Keyword.DDL)) else True"
-        % (FIRST, FIRST, FIRST),
-        "result == 'UNKNOWN' if (%s is not None and %s.ttype not in (T.Keyword.DML, T.Keyword.DDL, T.Keyword.CTE)) "
-        "else True" % (FIRST, FIRST),
+        "result == 'UNKNOWN' if F is None else True",
+        "result == F.normalized if (F is not None and F.ttype in (T.Keyword.DML, T.Keyword.DDL)) else True",
+        "result == 'UNKNOWN' if (F is not None and F.ttype not in (T.Keyword.DML, T.Keyword.DDL, T.Keyword.CTE)) "
+        "else True",
     ]
     raises = []
     serves = ['C18', 'C07']
